@@ -452,3 +452,159 @@ func ruleKeyLengthTolerant(c *report.Ctx) {
 		c.Lost("hdkeychain.ExtendedKey key-use methods")
 	}
 }
+
+// ruleTaskQueuedAfterDurableMarker (C06): the worker is told about a removal only after the removal flag is on disk.
+func ruleTaskQueuedAfterDurableMarker(c *report.Ctx) {
+	p := c.P
+	c.Rule("task-queued-after-durable-marker", "OnRemoveWallet hands the removal task to the worker (PushRemove) only after the write transaction that stores the removal flag (MarkDeleteWallet) returned without error: queued earlier, the worker can commit its first removal step before the flag is durable, and a crash in between leaves a wallet that is listed as ready, is not resumed as a removal at restart, and has lost its coins, addresses and balance", 1)
+	on := fn(c, pkgWallet, "NtfnsHandler", "OnRemoveWallet")
+	push := fn(c, pkgWallet, "WalletTaskChan", "PushRemove")
+	mark := fn(c, pkgTxmgr, "SyncStore", "MarkDeleteWallet")
+	upd := fn(c, pkgDB, "", "Update")
+	if on == nil || push == nil || mark == nil || upd == nil {
+		return
+	}
+	n := 0
+	for _, f := range reachIn(p, on, pkgWallet) {
+		for i, s := range calls(f, push) {
+			n++
+			key := siteKey(f, "PushRemove~after-flag", i+1)
+			ok := false
+			for _, u := range calls(f, upd) {
+				cl := closureArg(u.(*ssa.Call), 1)
+				if cl == nil {
+					continue
+				}
+				reached, _ := p.Reach([]*ssa.Function{cl}, an.ReachOpts{})
+				if !reached[mark] {
+					continue
+				}
+				if dominatedBySuccessOf(p, s, u) {
+					ok = true
+				}
+			}
+			if ok {
+				c.OK(key, "after the flag's transaction succeeded", posOf(c, s))
+			} else {
+				c.Fail(key, "the removal task is queued before (or without) the successful commit of the removal flag: the worker may delete the wallet's records first, and a crash before the flag is written leaves a half-deleted wallet that looks ready and is never resumed", posOf(c, s))
+			}
+		}
+	}
+	if n == 0 {
+		c.Fail(sk(on)+":PushRemove", "OnRemoveWallet no longer queues the removal (anchor lost)", p.Pos(on.Pos()))
+	}
+}
+
+// rulePartialDecoderFreshRecord (C08, C06): a decoder that leaves a field alone for some rows is never handed a record
+// that already held another row.
+func rulePartialDecoderFreshRecord(c *report.Ctx) {
+	p := c.P
+	c.Rule("partial-decoder-fresh-record", "readWalletStatus assigns WalletStatus.Flags only for values longer than eight bytes (status rows written before the flag byte existed are shorter): every call made inside a loop therefore decodes into a record allocated in that same iteration — a record hoisted out of the loop carries the previous row's flag over, and a wallet whose row sorts after one that is being removed is reported as removed too and erased by the worker's next start-up scan", 1)
+	dec := fn(c, pkgTxmgr, "", "readWalletStatus")
+	if dec == nil {
+		return
+	}
+	// is the decoder still partial? (if it becomes total the obligation is void)
+	partial := false
+	ws := p.Type(pkgTxmgr, "WalletStatus")
+	if ws != nil {
+		w := p.MustPassOnSuccess(dec, func(in ssa.Instruction) bool {
+			st, ok := in.(*ssa.Store)
+			return ok && addrRootsAtField(st.Addr, ws, "Flags")
+		})
+		partial = w != nil
+	}
+	n := 0
+	for _, f := range p.ModFuncs {
+		if pk := an.FuncPkg(f); pk == nil || !strings.HasPrefix(pk.Path(), pkgWallet) {
+			continue
+		}
+		for i, s := range calls(f, dec) {
+			n++
+			key := siteKey(f, "readWalletStatus-record", i+1)
+			if !partial {
+				c.OK(key, "the decoder assigns every field on every success path", posOf(c, s))
+				continue
+			}
+			hdr := loopHeaderOf(s.Block())
+			if hdr == nil {
+				c.OK(key, "not in a loop: the record holds one row", posOf(c, s))
+				continue
+			}
+			args := an.CallOf(s).Args
+			rec := args[len(args)-1]
+			al, isAlloc := rec.(*ssa.Alloc)
+			if isAlloc && loopHeaderOf(al.Block()) == hdr {
+				c.OK(key, "decodes into a record allocated in the same iteration", posOf(c, s))
+			} else {
+				c.Fail(key, "inside a loop the status rows are decoded into one record that outlives the iteration, although the decoder leaves Flags untouched for eight-byte rows: such a row inherits the flag of the row decoded before it (a wallet listed after one under removal is treated as under removal as well, and erased)", posOf(c, s))
+			}
+		}
+	}
+	if n == 0 {
+		c.Fail("readWalletStatus", "no caller of the wallet-status decoder found (anchor lost)", "")
+	}
+}
+
+// ruleBestHeightReadWhileParked (C07, C12): an import batch learns the follower's height only while the follower is parked.
+func ruleBestHeightReadWhileParked(c *report.Ctx) {
+	p := c.P
+	c.Rule("best-height-read-while-parked", "asyncImport (and the literals it runs) reads NtfnsHandler.bestBlock only after the suspend hand-shake of that round has been made: a height taken before the follower is parked can be one block stale — the block connected in between is neither applied live for the not-yet-ready wallet nor rescanned (the batch stops at the stale height and declares the wallet done), so a payment in it is lost for the restored wallet and its address stays listed unused", 1)
+	ai := fn(c, pkgWallet, "NtfnsHandler", "asyncImport")
+	nh := p.Type(pkgWallet, "NtfnsHandler")
+	if ai == nil || nh == nil {
+		return
+	}
+	hs := handShakeOf(p)
+	var suspends []ssa.Instruction
+	an.Instrs(ai, func(in ssa.Instruction) {
+		if hs.isSuspend(in) {
+			suspends = append(suspends, in)
+		}
+	})
+	if len(suspends) == 0 {
+		c.Fail(sk(ai)+":suspend", "asyncImport no longer parks the follower (anchor lost)", p.Pos(ai.Pos()))
+		return
+	}
+	domBySuspend := func(in ssa.Instruction) bool {
+		for _, s := range suspends {
+			if instrDominates(s, in) {
+				return true
+			}
+		}
+		return false
+	}
+	n := 0
+	check := func(f *ssa.Function, anchor func(in ssa.Instruction) ssa.Instruction) {
+		for i, r := range fieldReads(f, nh, "bestBlock") {
+			n++
+			key := siteKey(f, "bestBlock-read", i+1)
+			at := anchor(r)
+			if at != nil && domBySuspend(at) {
+				c.OK(key, "after the hand-shake", posOf(c, r))
+			} else {
+				c.Fail(key, "the follower's best height is read before the follower has been parked for this round: a block it connects in between is skipped for the wallet being restored (not applied live, not rescanned)", posOf(c, r))
+			}
+		}
+	}
+	check(ai, func(in ssa.Instruction) ssa.Instruction { return in })
+	for _, cl := range closuresOf(p, ai) {
+		// a literal's reads happen where the literal is run: at the call that receives it
+		var site ssa.Instruction
+		an.Instrs(ai, func(in ssa.Instruction) {
+			cc := an.CallOf(in)
+			if cc == nil {
+				return
+			}
+			for _, a := range cc.Args {
+				if mc, ok := a.(*ssa.MakeClosure); ok && mc.Fn == ssa.Value(cl) {
+					site = in
+				}
+			}
+		})
+		check(cl, func(ssa.Instruction) ssa.Instruction { return site })
+	}
+	if n == 0 {
+		c.Fail(sk(ai)+":bestBlock", "asyncImport no longer consults the follower's best height (anchor lost)", p.Pos(ai.Pos()))
+	}
+}
